@@ -314,6 +314,202 @@ pub open spec fn pooled_upto(m: Map<Seq<char>, matcher::AcquisitionLedger>, txs:
         && m[txs[k].ticker@]@[j].date.d() == cur ==> lot_avail(m[txs[k].ticker@]@[j]) == 0real
 }
 
+
+// ---------- C03.total: the cost ledger (INV_COST) ----------
+pub open spec fn f_leg_cost_t(t: Seq<char>) -> spec_fn(MatchResult) -> real { |m: MatchResult| if m.disposal_ticker@ == t { m.match_detail.allowable_cost.v() } else { 0real } }
+pub open spec fn legs_cost(ms: Seq<MatchResult>, t: Seq<char>) -> real { rsum(ms, f_leg_cost_t(t)) }
+pub open spec fn pool_cost(pools: Map<Seq<char>, Section104Holding>, t: Seq<char>) -> real { if pools.contains_key(t) { pools[t].total_cost.v() } else { 0real } }
+/// cost of the shares of a lot that are not yet matched, reserved or pooled
+pub open spec fn f_unalloc() -> spec_fn(AcquisitionLot) -> real { |l: AcquisitionLot| lot_avail(l) * lot_unit(l) }
+pub open spec fn ledger_unalloc(m: Map<Seq<char>, matcher::AcquisitionLedger>, t: Seq<char>) -> real { if m.contains_key(t) { rsum(m[t]@, f_unalloc()) } else { 0real } }
+/// the whole cost of a lot: quantity x its unit cost (= quantity x price + fees + offset for a non-zero quantity)
+pub open spec fn f_full() -> spec_fn(AcquisitionLot) -> real { |l: AcquisitionLot| l.original_amount.v() * lot_unit(l) }
+pub open spec fn ledger_cost(m: Map<Seq<char>, matcher::AcquisitionLedger>, t: Seq<char>) -> real { if m.contains_key(t) { rsum(m[t]@, f_full()) } else { 0real } }
+pub open spec fn tx_buy_unit(txs: Seq<GbpTransaction>, offsets: Seq<Decimal>, k: int) -> real {
+    buy_unit(buy_qty(txs[k]), txs[k].operation->Buy_price.v(), txs[k].operation->Buy_fees.v(), offset_at(offsets, k))
+}
+/// cost already given to 30-day legs against purchases that have not been reached yet
+pub open spec fn f_claim(fc: Map<usize, Decimal>, txs: Seq<GbpTransaction>, offsets: Seq<Decimal>, t: Seq<char>) -> spec_fn(int) -> real {
+    |k: int| if 0 <= k < txs.len() && txs[k].operation is Buy && txs[k].ticker@ == t { fc_get(fc, k as usize) * tx_buy_unit(txs, offsets, k) } else { 0real }
+}
+pub open spec fn claims_value(fc: Map<usize, Decimal>, txs: Seq<GbpTransaction>, offsets: Seq<Decimal>, t: Seq<char>) -> real { isum(txs.len() as int, f_claim(fc, txs, offsets, t)) }
+/// legs + pool + unallocated - pending claims: equals the cost of all lots of the security at every point of the day loop
+pub open spec fn phi(ms: Seq<MatchResult>, pools: Map<Seq<char>, Section104Holding>, ledgers: Map<Seq<char>, matcher::AcquisitionLedger>,
+                     fc: Map<usize, Decimal>, txs: Seq<GbpTransaction>, offsets: Seq<Decimal>, t: Seq<char>) -> real {
+    legs_cost(ms, t) + pool_cost(pools, t) + ledger_unalloc(ledgers, t) - claims_value(fc, txs, offsets, t)
+}
+
+
+/// a Same Day match takes exactly its cost out of the unallocated cost of the ledger (proportional consumption, C03.sameday_prop)
+pub proof fn lemma_sameday_unalloc(l0: Seq<AcquisitionLot>, l1: Seq<AcquisitionLot>, d: int, q: real, a: real)
+    requires wf_lots(l0), l1.len() == l0.len(), a == avail_on(l0, d), a > 0real, 0real < q <= a,
+        forall|k: int| 0 <= k < l0.len() ==> lot_same_but_consumed(#[trigger] l1[k], l0[k])
+            && l1[k].consumed.v() == l0[k].consumed.v() + (if lot_matching(l0[k], d) { lot_avail(l0[k]) * (q / a) } else { 0real }),
+    ensures rsum(l1, f_unalloc()) == rsum(l0, f_unalloc()) - q * (rsum(l0, f_pos_avail_cost_on(d)) / a)
+{
+    let r = q / a;
+    let dl = |l: AcquisitionLot| (-r) * f_pos_avail_cost_on(d)(l);
+    assert forall|k: int| 0 <= k < l0.len() implies f_unalloc()(l1[k]) == f_unalloc()(#[trigger] l0[k]) + dl(l0[k]) by {
+        let x = l0[k]; let y = l1[k];
+        assert(lot_same_but_consumed(y, x));
+        assert(lot_unit(y) == lot_unit(x));
+        let av = lot_avail(x); let u = lot_unit(x);
+        if lot_matching(x, d) {
+            assert(lot_avail(y) == av - av * r);
+            assert((av - av * r) * u == av * u + (-r) * (av * u)) by(nonlinear_arith);
+        } else {
+            assert(lot_avail(y) == av);
+            assert(f_pos_avail_cost_on(d)(x) == 0real);
+            assert((-r) * 0real == 0real) by(nonlinear_arith);
+        }
+    }
+    rsum_ext_add(l0, l1, f_unalloc(), f_unalloc(), dl);
+    rsum_scale(l0, f_pos_avail_cost_on(d), dl, -r);
+    let c = rsum(l0, f_pos_avail_cost_on(d));
+    assert((-(q / a)) * c == -(q * (c / a))) by(nonlinear_arith) requires a > 0real;
+}
+/// pooling the day's remainder moves exactly its cost from "unallocated" to the pool
+pub proof fn lemma_pool_unalloc(l0: Seq<AcquisitionLot>, l1: Seq<AcquisitionLot>, d: int)
+    requires wf_lots(l0), l1.len() == l0.len(),
+        forall|k: int| 0 <= k < l0.len() ==> lot_same_but_in_pool(#[trigger] l1[k], l0[k])
+            && l1[k].in_pool.v() == l0[k].in_pool.v() + (if l0[k].date.d() == d { lot_avail(l0[k]) } else { 0real }),
+    ensures rsum(l1, f_unalloc()) == rsum(l0, f_unalloc()) - rsum(l0, f_pos_avail_cost_on(d))
+{
+    let dl = |l: AcquisitionLot| -f_pos_avail_cost_on(d)(l);
+    assert forall|k: int| 0 <= k < l0.len() implies f_unalloc()(l1[k]) == f_unalloc()(#[trigger] l0[k]) + dl(l0[k]) by {
+        let x = l0[k]; let y = l1[k];
+        assert(wf_lot(x)); assert(lot_same_but_in_pool(y, x)); assert(lot_unit(y) == lot_unit(x));
+        let av = lot_avail(x); let u = lot_unit(x);
+        if x.date.d() == d { assert(lot_avail(y) == 0real); assert(0real * u == 0real) by(nonlinear_arith); if av == 0real { assert(0real * u == 0real) by(nonlinear_arith); } }
+        else { assert(lot_avail(y) == av); }
+    }
+    rsum_ext_add(l0, l1, f_unalloc(), f_unalloc(), dl);
+    rsum_scale(l0, f_pos_avail_cost_on(d), dl, -1real);
+}
+
+
+pub proof fn lemma_legs_cost_of(legs: Seq<MatchResult>, tk: Seq<char>, t: Seq<char>)
+    requires forall|i: int| 0 <= i < legs.len() ==> (#[trigger] legs[i]).disposal_ticker@ == tk
+    ensures rsum(legs, f_leg_cost_t(t)) == (if t == tk { rsum(legs, f_leg_cost()) } else { 0real })
+{
+    if t == tk { rsum_ext(legs, legs, f_leg_cost_t(t), f_leg_cost()); } else { rsum_zero(legs, f_leg_cost_t(t)); }
+}
+pub proof fn lemma_full_same(l0: Seq<AcquisitionLot>, l1: Seq<AcquisitionLot>)
+    requires l1.len() == l0.len(), forall|k: int| 0 <= k < l0.len() ==> (lot_same_but_consumed(#[trigger] l1[k], l0[k]) || lot_same_but_in_pool(l1[k], l0[k]))
+    ensures rsum(l1, f_full()) == rsum(l0, f_full())
+{
+    assert forall|k: int| 0 <= k < l1.len() implies f_full()(#[trigger] l1[k]) == f_full()(l0[k]) by { assert(lot_unit(l1[k]) == lot_unit(l0[k])); }
+    rsum_ext(l1, l0, f_full(), f_full());
+}
+
+
+/// C03.total for one sale: Same Day legs come out of the ledger's unallocated cost, 30-day legs become pending claims,
+/// the Section 104 leg comes out of the pool: legs + pool + unallocated - claims is unchanged for every security
+pub proof fn lemma_sell_phi(m0: Seq<MatchResult>, sd: Seq<MatchResult>, bb: Seq<MatchResult>, xs: Seq<MatchResult>,
+        pools0: Map<Seq<char>, Section104Holding>, pools1: Map<Seq<char>, Section104Holding>,
+        led0: Map<Seq<char>, matcher::AcquisitionLedger>, led1: Map<Seq<char>, matcher::AcquisitionLedger>,
+        fc0: Map<usize, Decimal>, fc1: Map<usize, Decimal>, txs: Seq<GbpTransaction>, offs: Seq<Decimal>, tk: Seq<char>, t: Seq<char>)
+    requires
+        forall|i: int| 0 <= i < sd.len() ==> (#[trigger] sd[i]).disposal_ticker@ == tk,
+        forall|i: int| 0 <= i < bb.len() ==> (#[trigger] bb[i]).disposal_ticker@ == tk,
+        forall|i: int| 0 <= i < xs.len() ==> (#[trigger] xs[i]).disposal_ticker@ == tk,
+        sd.len() <= 1, xs.len() <= 1,
+        led1.dom() == led0.dom(),
+        forall|k: Seq<char>| k != tk && led0.contains_key(k) ==> #[trigger] led1[k] == led0[k],
+        sd.len() == 0 ==> led1 == led0,
+        sd.len() == 1 ==> led0.contains_key(tk) && led1[tk]@.len() == led0[tk]@.len()
+            && rsum(led1[tk]@, f_unalloc()) == rsum(led0[tk]@, f_unalloc()) - sd[0].match_detail.allowable_cost.v()
+            && forall|j: int| 0 <= j < led0[tk]@.len() ==> lot_same_but_consumed(#[trigger] led1[tk]@[j], led0[tk]@[j]),
+        claims_value(fc1, txs, offs, tk) == claims_value(fc0, txs, offs, tk) + rsum(bb, f_leg_cost()),
+        t != tk ==> claims_value(fc1, txs, offs, t) == claims_value(fc0, txs, offs, t),
+        pools1.dom() == pools0.dom(),
+        forall|k: Seq<char>| k != tk && pools0.contains_key(k) ==> #[trigger] pools1[k] == pools0[k],
+        xs.len() == 0 ==> pools1 == pools0,
+        xs.len() == 1 ==> pools0.contains_key(tk) && pools1[tk].total_cost.v() == pools0[tk].total_cost.v() - xs[0].match_detail.allowable_cost.v(),
+    ensures
+        phi(m0 + sd + bb + xs, pools1, led1, fc1, txs, offs, t) == phi(m0, pools0, led0, fc0, txs, offs, t),
+        ledger_cost(led1, t) == ledger_cost(led0, t),
+{
+    {
+        rsum_concat(m0 + sd + bb, xs, f_leg_cost_t(t));
+        rsum_concat(m0 + sd, bb, f_leg_cost_t(t));
+        rsum_concat(m0, sd, f_leg_cost_t(t));
+        lemma_legs_cost_of(sd, tk, t); lemma_legs_cost_of(bb, tk, t); lemma_legs_cost_of(xs, tk, t);
+        if sd.len() == 1 { assert(sd =~= seq![sd[0]]); rsum_one(sd[0], f_leg_cost()); } else { assert(sd =~= Seq::<MatchResult>::empty()); }
+        if xs.len() == 1 { assert(xs =~= seq![xs[0]]); rsum_one(xs[0], f_leg_cost()); } else { assert(xs =~= Seq::<MatchResult>::empty()); }
+        if t == tk && sd.len() == 1 { lemma_full_same(led0[tk]@, led1[tk]@); }
+        if t != tk && led0.contains_key(t) { assert(led1[t] == led0[t]); }
+        if t != tk && pools0.contains_key(t) { assert(pools1[t] == pools0[t]); }
+        assert(led1.contains_key(t) == led0.contains_key(t));
+        assert(pools1.contains_key(t) == pools0.contains_key(t));
+    }
+}
+
+
+/// claims exist only against BUY lines
+pub open spec fn fc_on_buys(fc: Map<usize, Decimal>, txs: Seq<GbpTransaction>) -> bool {
+    forall|i: usize| #![trigger fc_get(fc, i)] fc_get(fc, i) != 0real ==> (i as int) < txs.len() && txs[i as int].operation is Buy
+}
+/// no claim is pending against a line before position n
+pub open spec fn fc_zero_before(fc: Map<usize, Decimal>, n: int) -> bool {
+    forall|i: usize| #![trigger fc_get(fc, i)] (i as int) < n ==> fc_get(fc, i) == 0real
+}
+/// adding the lot of BUY line k (reserved = the claims already made against it) keeps unallocated - claims - lot cost unchanged
+pub proof fn lemma_add_lot_phi(led0: Map<Seq<char>, matcher::AcquisitionLedger>, led1: Map<Seq<char>, matcher::AcquisitionLedger>,
+        fc0: Map<usize, Decimal>, fc1: Map<usize, Decimal>, txs: Seq<GbpTransaction>, offs: Seq<Decimal>, k: int, t: Seq<char>)
+    requires
+        0 <= k < txs.len() <= usize::MAX, txs[k].operation is Buy,
+        ({ let tk = txs[k].ticker@; let l0 = if led0.contains_key(tk) { led0[tk]@ } else { Seq::<AcquisitionLot>::empty() };
+           led1.dom() == led0.dom().insert(tk) && (forall|q: Seq<char>| q != tk && led0.contains_key(q) ==> #[trigger] led1[q] == led0[q])
+           && led1[tk]@.len() == l0.len() + 1 && led1[tk]@.drop_last() == l0
+           && lot_is_tx(led1[tk]@.last(), tk, txs, offs) && led1[tk]@.last().transaction_idx == k
+           && led1[tk]@.last().consumed.v() == 0real && led1[tk]@.last().in_pool.v() == 0real
+           && led1[tk]@.last().reserved.v() == fc_get(fc0, k as usize) }),
+        forall|j: usize| #![trigger fc_get(fc1, j)] fc_get(fc1, j) == (if j as int == k { 0real } else { fc_get(fc0, j) }),
+    ensures
+        ledger_unalloc(led1, t) - claims_value(fc1, txs, offs, t) - ledger_cost(led1, t) == ledger_unalloc(led0, t) - claims_value(fc0, txs, offs, t) - ledger_cost(led0, t),
+{
+    let tk = txs[k].ticker@;
+    let l0 = if led0.contains_key(tk) { led0[tk]@ } else { Seq::<AcquisitionLot>::empty() };
+    let l1 = led1[tk]@; let lot = l1.last();
+    if t == tk {
+        assert(l1 =~= l0.push(lot));
+        rsum_push(l0, lot, f_unalloc()); rsum_push(l0, lot, f_full());
+        let a = lot.original_amount.v(); let r = lot.reserved.v(); let u = lot_unit(lot);
+        assert(u == tx_buy_unit(txs, offs, k));
+        assert((a - 0real - r - 0real) * u - a * u + r * u == 0real) by(nonlinear_arith);
+        assert forall|j: int| 0 <= j < txs.len() && j != k implies #[trigger] f_claim(fc1, txs, offs, t)(j) == f_claim(fc0, txs, offs, t)(j) by { assert(fc_get(fc1, j as usize) == fc_get(fc0, j as usize)); }
+        assert(fc_get(fc1, k as usize) == 0real);
+        assert(0real * u == 0real) by(nonlinear_arith);
+        isum_update(txs.len() as int, f_claim(fc1, txs, offs, t), f_claim(fc0, txs, offs, t), k, r * u);
+        if !led0.contains_key(tk) { rsum_empty::<AcquisitionLot>(f_unalloc()); rsum_empty::<AcquisitionLot>(f_full()); }
+    } else {
+        assert forall|j: int| 0 <= j < txs.len() implies #[trigger] f_claim(fc1, txs, offs, t)(j) == f_claim(fc0, txs, offs, t)(j) by {
+            if j != k { assert(fc_get(fc1, j as usize) == fc_get(fc0, j as usize)); }
+        }
+        isum_ext(txs.len() as int, f_claim(fc1, txs, offs, t), f_claim(fc0, txs, offs, t));
+        assert(led1.contains_key(t) == led0.contains_key(t));
+        if led0.contains_key(t) { assert(led1[t] == led0[t]); }
+    }
+}
+/// when nothing is unallocated and no claim is pending: legs + pool = cost of all lots (C03.total)
+pub proof fn lemma_phi_end(ms: Seq<MatchResult>, pools: Map<Seq<char>, Section104Holding>, led: Map<Seq<char>, matcher::AcquisitionLedger>,
+        fc: Map<usize, Decimal>, txs: Seq<GbpTransaction>, offs: Seq<Decimal>, t: Seq<char>)
+    requires all_allocated(led), fc_zero_before(fc, txs.len() as int), txs.len() <= usize::MAX
+    ensures phi(ms, pools, led, fc, txs, offs, t) == legs_cost(ms, t) + pool_cost(pools, t)
+{
+    if led.contains_key(t) {
+        assert forall|j: int| 0 <= j < led[t]@.len() implies f_unalloc()(#[trigger] led[t]@[j]) == 0real by {
+            let u = lot_unit(led[t]@[j]); assert(lot_avail(led[t]@[j]) == 0real); assert(0real * u == 0real) by(nonlinear_arith);
+        }
+        rsum_zero(led[t]@, f_unalloc());
+    }
+    assert forall|j: int| 0 <= j < txs.len() implies #[trigger] f_claim(fc, txs, offs, t)(j) == 0real by {
+        assert(fc_get(fc, j as usize) == 0real); let u = tx_buy_unit(txs, offs, j); assert(0real * u == 0real) by(nonlinear_arith);
+    }
+    isum_zero(txs.len() as int, f_claim(fc, txs, offs, t));
+}
+
 // ---------- proceeds ----------
 /// C04.pro_rata: the share of the day's sale attributed to a leg of q out of Q shares
 pub open spec fn pro_rata_gross(q: real, price: real) -> real { q * price }
